@@ -16,7 +16,7 @@ Proof. unfold upd. intros H. destruct (q =? p) eqn:E; auto. apply N.eqb_eq in E.
 Definition is_open (x : option pstate) : bool := match x with Some (Open _) => true | _ => false end.
 
 Ltac setters :=
-  cbn [ps pend hsI hsO hopen hval conn dead nsid spend tasks ntask lastt timers narm set_timers arm
+  cbn [ps pend hsI hsO hopen hval conn dead nsid spend tasks ntask lastt timers narm set_timers arm hsink usink set_hsink set_usink
        set_ps set_pend set_hsI set_hsO set_hopen set_hval set_conn set_dead set_nsid set_spend set_tasks spawn_task] in *.
 
 (* ------------------------------------------------------------------ task list facts *)
@@ -82,3 +82,105 @@ Fixpoint exec (c : cfg) (s : st) (l : list op) : option st :=
   | o :: t => match step c s o with Some (s1, _, _) => exec c s1 t | None => None end
   end.
 
+
+(* ---- full case split of handler equations ---- *)
+(* what a change of the task list may do: tasks keep their id and peer, tasks with other ids stay *)
+Definition tasks_sub (k : N) (old new : list task) : Prop :=
+  (forall t', In t' new -> exists t, In t old /\ t_id t' = t_id t /\ t_peer t' = t_peer t) /\
+  (forall t, In t old -> t_id t <> k -> In t new).
+
+Lemma tasks_sub_refl k l : tasks_sub k l l.
+Proof. split; eauto. Qed.
+
+Lemma tasks_sub_map k f l :
+  (forall t, t_id (f t) = t_id t /\ t_peer (f t) = t_peer t) -> tasks_sub k l (map_task k f l).
+Proof.
+  intros Hf. unfold map_task. split.
+  - intros t' H. apply in_map_iff in H. destruct H as (t & E & Ht). exists t. split; auto.
+    destruct (t_id t =? k); subst; auto.
+  - intros t Ht Hne. apply in_map_iff. exists t. split; auto.
+    destruct (t_id t =? k) eqn:E; auto. apply N.eqb_eq in E. contradiction.
+Qed.
+
+Lemma tasks_sub_remove k l : tasks_sub k l (remove_task k l).
+Proof.
+  split.
+  - intros t' H. apply in_remove in H. exists t'. tauto.
+  - intros t Ht Hne. apply in_remove. tauto.
+Qed.
+
+Lemma signal_core s k s' ev : signal s k = (s', ev) ->
+  exists l, s' = set_tasks s l /\ tasks_sub k (tasks s) l /\
+            (ev = [] \/ exists t, find_task k (tasks s) = Some t /\ ev = [UClosed (t_peer t)]).
+Proof.
+  unfold signal. destruct (find_task k (tasks s)) as [t|] eqn:F.
+  - destruct (t_closing t); [|destruct (t_gated t)]; intros H; injection H as <- <-.
+    + exists (tasks s). split; [destruct s; reflexivity|]. split; auto using tasks_sub_refl.
+    + eexists. split; [reflexivity|]. split; auto. apply tasks_sub_map. intros; auto.
+    + eexists. split; [reflexivity|]. split; eauto using tasks_sub_remove.
+  - intros H; injection H as <- <-. exists (tasks s). split; [destruct s; reflexivity|].
+    split; auto using tasks_sub_refl.
+Qed.
+
+Ltac setters_in M :=
+  cbn [ps pend hsI hsO hopen hval conn dead nsid spend tasks ntask lastt timers narm set_timers arm hsink usink set_hsink set_usink
+       set_ps set_pend set_hsI set_hsO set_hopen set_hval set_conn set_dead set_nsid set_spend set_tasks spawn_task] in M;
+  rewrite ?upd_same in M.
+
+(* full case split of handler equations in the context (innermost scrutinee first) *)
+Ltac split_all :=
+  repeat match goal with
+         | E : None = Some _ |- _ => discriminate E
+         | E : Some _ = None |- _ => discriminate E
+         | E : Some _ = Some _ |- _ => inversion E; subst; clear E
+         | E : (_, _) = (_, _) |- _ => inversion E; subst; clear E
+         | M : context [signal ?a ?k] |- _ =>
+             let Sg := fresh "Sg" in let tl := fresh "tl" in let ss := fresh "ss" in let se := fresh "se" in
+             destruct (signal a k) as [ss se] eqn:Sg; apply signal_core in Sg; destruct Sg as (tl & -> & ? & ?)
+         | M : context [match ?x with _ => _ end] |- _ =>
+             lazymatch x with
+             | context [match _ with _ => _ end] => fail
+             | _ => destruct x eqn:?; setters_in M
+             end
+         end.
+
+Ltac unfold_handlers M :=
+  cbn [main_handler] in M;
+  unfold on_established, on_open, on_closed, on_sub_out, on_sub_in, on_open_fail, on_dial_fail, on_close,
+         on_validation, on_hs_out_ok, on_hs_in_ok, on_hs_err, on_timer, hs_finish, svc_open, svc_force,
+         task_die_op, ok, ok_ev in M;
+  setters_in M.
+
+
+(* the handlers never touch the handle's sink table or the user's sink clones *)
+Lemma on_shutdown_hsink s p : hsink (on_shutdown s p) = hsink s.
+Proof.
+  unfold on_shutdown. destruct (ps s p) as [[]|]; auto. destruct (task_closed s k); auto.
+Qed.
+
+Lemma hsink_main c s o s1 ev cl : main_handler c s o = Some (s1, ev, cl) -> hsink s1 = hsink s.
+Proof.
+  intros M. destruct o; unfold_handlers M.
+  all: try (split_all; reflexivity).
+  - split_all; try reflexivity. rewrite on_shutdown_hsink. reflexivity.
+  - match type of M with context [finish_tasks ?a ?b] => destruct (finish_tasks a b) as [[l' e'] n'] end.
+    split_all. unfold run_shutdowns. match goal with |- context [if ?b then _ else _] => destruct b end; auto.
+    rewrite on_shutdown_hsink. reflexivity.
+  - split_all; try reflexivity. rewrite on_shutdown_hsink. reflexivity.
+Qed.
+
+Lemma on_shutdown_hopen s p : hopen (on_shutdown s p) = hopen s.
+Proof.
+  unfold on_shutdown. destruct (ps s p) as [[]|]; auto. destruct (task_closed s k); auto.
+Qed.
+
+Lemma hopen_main c s o s1 ev cl : main_handler c s o = Some (s1, ev, cl) -> hopen s1 = hopen s.
+Proof.
+  intros M. destruct o; unfold_handlers M.
+  all: try (split_all; reflexivity).
+  - split_all; try reflexivity. rewrite on_shutdown_hopen. reflexivity.
+  - match type of M with context [finish_tasks ?a ?b] => destruct (finish_tasks a b) as [[l' e'] n'] end.
+    split_all. unfold run_shutdowns. match goal with |- context [if ?b then _ else _] => destruct b end; auto.
+    rewrite on_shutdown_hopen. reflexivity.
+  - split_all; try reflexivity. rewrite on_shutdown_hopen. reflexivity.
+Qed.
